@@ -176,6 +176,10 @@ def main():
     n_pt, nontriv_pt = pytree_part(R)
     nchecks += n_pt
     nontriv |= nontriv_pt
+    # the statements the translator cut out of the source, run by CPython with scripted stand-ins, against their translation
+    # interpreted inside Coq (lib/storage_corr.py)
+    import storage_corr
+    R.coverage["source_fragment_cases"] = storage_corr.fragment_correspondence(R, ['arraytail'], 600 if R.thorough else 60)
     if not proved:
         R.violation("proof", "proof obligations of props/C04.v no longer check: " + str(R.broken_proof)[-800:],
                     {"theorem_file": "coq/props/C04.v", "log": R.broken_proof}, no_input=not any(v["kind"] == "property" for v in R.violations))
